@@ -12,6 +12,8 @@ GStep == /\ ~emitted /\ Len(ops) < MaxOps
             \/ \E h \in Handles : \/ Do("Close", h, CloseH(h))
                                   \/ (CanRead(h) /\ Do("Read", h, IF inbox[h] # <<>> THEN ReadData(h) ELSE ReadErr(h)))
             \/ Do("MClose", 0, MClose) \/ Do("Unblock", 0, Unblock)
+            \* right after the close, once: an Open that must be refused
+            \/ \E i \in Ids : ops # <<>> /\ ops[Len(ops)].op = "MClose" /\ Do("OpenLate", i, OpenRefused(i))
          /\ UNCHANGED <<emitted, initblocked>>
 GEmit == /\ ~emitted /\ Len(ops) > 0 /\ (Len(ops) = MaxOps \/ mclosed)
          /\ PrintT(<<"CASE", ToJson([ops |-> ops, blocked |-> initblocked])>>)
